@@ -176,9 +176,15 @@ type CB struct {
 	Kind      CBKind
 	PanicKind int // which kind of value is raised
 	ExitCode  int
+	Help      int // 1: the callback first calls PrintHelp on its command, 2: PrintLongHelp (public API)
 }
 
 func (c CB) String() string {
+	if c.Help > 0 && c.Kind != CBAbsent {
+		h := c
+		h.Help = 0
+		return []string{"", "PrintHelp then ", "PrintLongHelp then "}[c.Help] + h.String()
+	}
 	switch c.Kind {
 	case CBReturn:
 		return "returns"
@@ -190,7 +196,7 @@ func (c CB) String() string {
 	return "absent"
 }
 
-var panicKindNames = []string{"string", "error", "int", "pointer", "slice", "struct", "runtime-error"}
+var panicKindNames = []string{"string", "error", "int", "pointer", "slice", "struct", "runtime-error", "error-with-ExitCode-method", "named-int", "stringer"}
 var exitCodes = []int{0, 1, 2, 3, 64, 255, -1, 127, 256, -128}
 
 type CmdDecl struct {
@@ -302,7 +308,7 @@ func (s *ProbeSpec) Describe() string {
 		r += "IsDefault "
 	}
 	if s.FailAt > 0 {
-		r += fmt.Sprintf("SetFailsAtRunCall=%d(%T %q) ", s.FailAt, probeErrors[s.ErrKind%len(probeErrors)], probeErrors[s.ErrKind%len(probeErrors)].Error())
+		r += fmt.Sprintf("SetFailsAtRunCall=%d(%T %q) ", s.FailAt, probeErrors[(s.ErrKind+1)%len(probeErrors)], probeErrors[(s.ErrKind+1)%len(probeErrors)].Error())
 	}
 	if s.FailDecl > 0 {
 		r += fmt.Sprintf("SetFailsAtDeclCall=%d ", s.FailDecl)
@@ -350,7 +356,12 @@ type probeErrType struct{ code int }
 func (e *probeErrType) Error() string { return "" }
 
 // probeErrors: what a user type may return from Set. Whatever it is, it turns the invocation into a usage error.
-var probeErrors = []error{errProbeSet, flag.ErrHelp, fmt.Errorf("cannot set: %w", flag.ErrHelp), io.EOF, &probeErrType{7}, errors.New("incorrect usage"), errors.New("help requested")}
+// sliceErr is an error whose dynamic type cannot be a map key or be compared
+type sliceErr []string
+
+func (e sliceErr) Error() string { return "problems: " + strings.Join(e, "; ") }
+
+var probeErrors = []error{sliceErr{"first", "second"}, errProbeSet, flag.ErrHelp, fmt.Errorf("cannot set: %w", flag.ErrHelp), io.EOF, &probeErrType{7}, errors.New("incorrect usage"), errors.New("help requested")}
 
 func (c *probeCore) Set(s string) error {
 	if c.spec.YieldInSet && c.declared && c.inst != nil {
@@ -370,7 +381,7 @@ func (c *probeCore) Set(s string) error {
 	if fail {
 		call.Failed = true
 		c.Log = append(c.Log, call)
-		return probeErrors[c.spec.ErrKind%len(probeErrors)]
+		return probeErrors[(c.spec.ErrKind+1)%len(probeErrors)]
 	}
 	c.state = append(c.state, s)
 	c.Log = append(c.Log, call)
@@ -483,9 +494,27 @@ func (inst *Instance) panicValue(ev string, kind int) interface{} {
 		return &panicStruct{1, ev}
 	case 4:
 		return []string{"boom", ev}
+	case 7:
+		return &exitishError{code: 3 + len(ev)}
+	case 8:
+		return namedInt(7)
+	case 9:
+		return stringerVal{ev}
 	}
 	return panicStruct{2, ev}
 }
+
+// exitishError has the shape of *exec.ExitError: an error with an ExitCode method. It is not a request to exit.
+type exitishError struct{ code int }
+
+func (e *exitishError) Error() string { return "child process failed" }
+func (e *exitishError) ExitCode() int { return e.code }
+
+type namedInt int
+
+type stringerVal struct{ s string }
+
+func (v stringerVal) String() string { return "stringer:" + v.s }
 
 type exitMark int
 
@@ -510,7 +539,7 @@ func sameValue(a, b interface{}) (same bool) {
 	return a == b
 }
 
-func (inst *Instance) callback(ev string, cb CB, isAction bool, tag string) func() {
+func (inst *Instance) callback(c *cli.Cmd, ev string, cb CB, isAction bool, tag string) func() {
 	if cb.Kind == CBAbsent {
 		return nil
 	}
@@ -523,6 +552,12 @@ func (inst *Instance) callback(ev string, cb CB, isAction bool, tag string) func
 		}
 		if s := theSched; s != nil && !raceMode {
 			s.yield(p, "callback")
+		}
+		switch cb.Help {
+		case 1:
+			c.PrintHelp()
+		case 2:
+			c.PrintLongHelp()
 		}
 		switch cb.Kind {
 		case CBPanic:
@@ -571,9 +606,9 @@ func (inst *Instance) configure(c *cli.Cmd, d *CmdDecl) {
 	for _, decl := range d.Decls {
 		inst.declare(c, d, decl)
 	}
-	c.Before = inst.callback("B:"+d.Tag, d.Before, false, d.Tag)
-	c.Action = inst.callback("ACT:"+d.Tag, d.Action, true, d.Tag)
-	c.After = inst.callback("A:"+d.Tag, d.After, false, d.Tag)
+	c.Before = inst.callback(c, "B:"+d.Tag, d.Before, false, d.Tag)
+	c.Action = inst.callback(c, "ACT:"+d.Tag, d.Action, true, d.Tag)
+	c.After = inst.callback(c, "A:"+d.Tag, d.After, false, d.Tag)
 	for _, sub := range d.Subs {
 		sub := sub
 		c.Command(sub.Name, sub.Desc, func(sc *cli.Cmd) { inst.configure(sc, sub) })
